@@ -336,7 +336,8 @@ func BuildSidecarOutboundVirtualHosts(node *model.Proxy, push *model.PushContext
 		listenerPort = 0
 	}
 
-	includeRequestAttemptCount := util.GetProxyHeaders(node, push, istionetworking.ListenerClassSidecarOutbound).IncludeRequestAttemptCount
+	proxyHeaders := util.GetProxyHeaders(node, push, istionetworking.ListenerClassSidecarOutbound)
+	includeRequestAttemptCount := proxyHeaders.IncludeRequestAttemptCount
 
 	servicesByName := make(map[host.Name]*model.Service)
 	for _, svc := range services {
@@ -386,6 +387,9 @@ func BuildSidecarOutboundVirtualHosts(node *model.Proxy, push *model.PushContext
 			Services:        services,
 			VirtualServices: virtualServices,
 			EnvoyFilterKeys: efKeys,
+
+			IncludeRequestAttemptCount: includeRequestAttemptCount,
+			AppendXForwardedHost:       proxyHeaders.XForwardedHost,
 		}
 	}
 
